@@ -552,7 +552,7 @@ func c17NtimedRaw(p *ana.Prog, r *ana.Result) {
 				// guard navg < C with C >= 4 (or none)
 				for _, e := range ana.ControlDeps(do).Direct(incr.Block()) {
 					if iff, ok := e.From.Instrs[len(e.From.Instrs)-1].(*ssa.If); ok {
-						if c, ok := iff.Cond.(*ssa.BinOp); ok && c.Op == token.LSS && isNavgLoad(c.X) && e.Succ == 0 {
+						if c, pos, ok := ana.AsCmpDir(iff.Cond, token.LSS); ok && pos && c.Op == token.LSS && isNavgLoad(c.X) && e.Succ == 0 {
 							if lim, ok := constFloatOf(c.Y); ok && lim >= 4 {
 								counterOK = true
 							}
@@ -579,7 +579,7 @@ func c17NtimedRaw(p *ana.Prog, r *ana.Result) {
 		}
 		return
 	}
-	domTrue := func(b *ssa.BasicBlock, match func(c *ssa.BinOp) bool) bool {
+	domTrue := func(b *ssa.BasicBlock, match func(c ana.Cmp) bool) bool {
 		for _, g := range do.Blocks {
 			iff := (*ssa.If)(nil)
 			if n := len(g.Instrs); n > 0 {
@@ -588,8 +588,8 @@ func c17NtimedRaw(p *ana.Prog, r *ana.Result) {
 			if iff == nil {
 				continue
 			}
-			c, ok := iff.Cond.(*ssa.BinOp)
-			if !ok || !match(c) {
+			c, pos, ok := ana.AsCmpDir(iff.Cond, token.GTR)
+			if !ok || !pos || !match(c) {
 				continue
 			}
 			s := g.Succs[0]
@@ -609,12 +609,13 @@ func c17NtimedRaw(p *ana.Prog, r *ana.Result) {
 		}
 		nArms++
 		b := ph.Block().Preds[i]
-		fourth := domTrue(b, func(c *ssa.BinOp) bool {
+		fourth := domTrue(b, func(c ana.Cmp) bool {
 			k, ok := constFloatOf(c.Y)
 			return ok && isNavgLoad(c.X) && ((c.Op == token.GTR && k >= 3) || (c.Op == token.GEQ && k > 3))
 		})
-		outside := domTrue(b, func(c *ssa.BinOp) bool {
-			return (c.Op == token.LSS && c.X == lo) || (c.Op == token.GTR && c.X == hi) || (c.Op == token.GTR && c.Y == lo) || (c.Op == token.LSS && c.Y == hi)
+		outside := domTrue(b, func(c ana.Cmp) bool {
+			// oriented as X > Y: limit > lo (sample below its learned bound) or hi > limit
+			return c.Op == token.GTR && (c.Y == lo || c.X == hi)
 		})
 		key := fmt.Sprintf("non-raw-arm:%d", nArms)
 		switch {
